@@ -158,7 +158,7 @@ class C20(Prop):
     pid = "C20"
     prop_file = "Props/C20.v"
     module = "Props.C20"
-    gen_deps = ["Table", "ParseCfg", "ParserFn"]
+    gen_deps = ["Table", "ParseCfg", "ParserFn", "Utf8parseFn"]
     harness = ("h-parsecfg", "hparsecfg")
     shard_min = 48    # a 1100-byte OSC payload costs the list-based model / spec tens of milliseconds
     nontrivial_rule = ("cases `pc <label> <hex>`, each run through the FOUR builds of anstyle-parse {default, core, core+utf8, no default features} "
@@ -168,7 +168,8 @@ class C20(Prop):
                        "hand-built limit cases; OSC payloads of 1000..1100 bytes with 0..20 separators (BEL / ESC \\ / CAN / SUB / ESC-restart terminators) followed by text and further sequences; "
                        "a few inputs with high bytes (spec N/A; the no-utf8 builds panic where the model says PANIC). "
                        "non-trivial = distinct case whose callback trace (default build) holds at least one event other than print/execute")
-    trusted = ["third-party utf8parse automaton (transcribed, Model/Utf8parse.v; only reached on the high-byte cases)",
+    trusted = ["third-party utf8parse automaton (translated from the registry source of the version Cargo.lock pins and proved equal to Model/Utf8parse.v: tools/gen_fn_utf8parse.py, "
+               "Proofs/Utf8parseGen.v; only reached on the high-byte cases; trusted: cargo builds the harness from the directory translated)",
                "cargo feature resolution: each binary is built with --no-default-features --features <set>; `default` through anstyle-parse/default",
                "arrayvec 0.7 ArrayVec::{is_full,len,push,clear,index} as modelled (list of at most cap bytes)"]
     assumptions = ["input bytes are < 256 (the Rust type u8)",
